@@ -128,6 +128,21 @@ def register(M):
             raise Inconclusive('values() on a symbolic map')
         return Obj('iter', items=tuple(Ref(cell, path + (('slot', i),)) for i in orders(ex, len(m.entries))), ty=dty)
 
+    @reg('HashMap::iter', 'HashMap::iter_mut')
+    def _(ex, info, a, dty):
+        cell, path, m = M._map_at(ex, a[0])
+        if m.kind != 'assoc':
+            raise Inconclusive('iter() on a symbolic map')
+        return Obj('iter', items=tuple(Adt('(&K, &V)', {(None, 0): Ref(Cell(m.entries[i][0]), ()), (None, 1): Ref(cell, path + (('slot', i),))})
+                                       for i in orders(ex, len(m.entries))), ty=dty)
+
+    @reg('HashMap::keys')
+    def _(ex, info, a, dty):
+        cell, path, m = M._map_at(ex, a[0])
+        if m.kind != 'assoc':
+            raise Inconclusive('keys() on a symbolic map')
+        return Obj('iter', items=tuple(Ref(Cell(m.entries[i][0]), ()) for i in orders(ex, len(m.entries))), ty=dty)
+
     @reg('HashMap::len')
     def _(ex, info, a, dty):
         cell, path, m = M._map_at(ex, a[0])
